@@ -685,11 +685,14 @@ def _pool_rows(ctx):
             else:
                 out.append(ok(R, key, 'the hand-over lies on the busy==false edge, and that edge always leads to it', fn=sd.name))
         key = 'schedule_dormant|reaps-first'
-        rf = [bb for bb, t in calls(sd, 'SchedulerCore::remove_finished_threads')]
-        if rf and _always(sd, rf):
-            out.append(ok(R, key, 'dead threads are reaped on every call', fn=sd.name))
-        elif rf:
-            out.append(bad(R, key, 'schedule_dormant can skip the reaping of finished threads', fn=sd.name))
+        from .poolview import pool_view
+        pv = pool_view(ctx)
+        if pv.ok and pv.reaps and pv.counts:
+            # (restated on the request's inlined graph: see ORD-C15-reap)
+            if all(pv.always_between(0, {c}, pv.reaps) for c in pv.counts):
+                out.append(ok(R, key, 'dead threads are reaped before the table is measured against the maximum', fn=sd.name))
+            else:
+                out.append(bad(R, key, 'a scheduling request can reach the room test without having reaped the finished threads', fn=sd.name))
     # spawn_thread_if_less_than_maximum: true only after the push, false only when there is no room
     sp = F.fn('desync::SchedulerCore::spawn_thread_if_less_than_maximum')
     key = 'spawn_thread_if_less_than_maximum|answers'
